@@ -115,7 +115,6 @@ type traits struct {
 	Corrupt     bool
 	Nested      bool
 	LieClasses  string
-	hasShortTop bool
 }
 
 func scan(kids []node, t *traits, classes map[string]bool) {
@@ -126,7 +125,9 @@ func scan(kids []node, t *traits, classes map[string]bool) {
 			if k.Lie.Where != "local" {
 				t.CDLiar = true
 			}
-			classes[k.Lie.Class+"@"+k.Lie.Where] = true
+			if k.Lie.Where != "local" {
+				classes[k.Lie.Class] = true
+			}
 		}
 		switch k.Kind {
 		case "corrupt":
@@ -146,13 +147,14 @@ func (a *archive) traits() traits {
 	scan(a.Kids, &t, cl)
 	var l []string
 	for _, c := range []string{"zero", "minus1", "plus1", "huge"} {
-		for _, w := range []string{"cd", "local", "both"} {
-			if cl[c+"@"+w] {
-				l = append(l, c+"@"+w)
-			}
+		if cl[c] {
+			l = append(l, c)
 		}
 	}
-	t.LieClasses = strings.Join(l, "+")
+	t.LieClasses = strings.Join(l, "+") // classes of the lies the extractor can see (central directory)
+	if len(l) == 0 && t.Liar {
+		t.LieClasses = "local-header-only"
+	}
 	return t
 }
 
